@@ -5,7 +5,7 @@
    model of GenomicPositionOffsets compute them. *)
 From VV Require Import Model.Base Model.Pattern Model.Gpo Spec.LiftSpec
   Proofs.LiftSpecProofs Proofs.ApplyProofs Proofs.GpoRefine Proofs.GpoTop Proofs.GpoNearest
-  Generated.KernelsLift Proofs.KernelLiftEquiv.
+  Generated.KernelsLift Proofs.KernelLiftEquiv Proofs.GpoAltOverlap.
 
 (* the altered sequence is the reference with every variant spliced in *)
 Theorem C05_apply_variants_is_splice : forall start ref vs,
@@ -136,6 +136,30 @@ Theorem C05_var_stats_match_source : forall v r,
   k_vs_alt_ref_delta v = Ok (delta v) /\ k_vs_ref_end v = Ok (vref_end v) /\ k_vs_is_in_range v r = Ok (vs_in_range v r).
 Proof. intros v r. exact (conj (k_vs_alt_ref_delta_eq v) (conj (k_vs_ref_end_eq v) (k_vs_is_in_range_eq v r))). Qed.
 
+(* an ALT-coordinate variant [pos, pos+len-1] inside the ALT sequence is reported as overlapping a coordinate shift exactly when its
+   first base is an inserted base or - for two bases or more - its last base is inserted, the REF span between the pre-images of
+   its two ends has another length, or a REF base of that span is deleted or an insertion point.  A single surviving base is never
+   reported: the recorded finding C05-alt-single-base-insertion-point is this branch, and the statement below it refutes the symmetric reading *)
+Theorem C05_alt_var_overlap_characterised : forall g r vs, 0 < rs r -> wf (rs r) (re r) vs -> gpo_for g r vs ->
+  forall pos len, rs r <= pos -> get_end pos len < rs r + g_alt_length g ->
+  alt_var_overlaps_var g pos len =
+    Ok (match a2r vs pos with
+        | None => true
+        | Some s =>
+            if len <=? 1 then false
+            else match a2r vs (get_end pos len) with
+                 | None => true
+                 | Some e => negb (e - s + 1 =? len) || existsb (touches vs) (positions (mkRange s e))
+                 end
+        end).
+Proof. exact alt_var_overlap_refines. Qed.
+
+Theorem C05_alt_single_base_insertion_point_refuted :
+  exists g, from_var_stats [mkVS 13 0 2] (mkRange 10 20) = Ok g /\
+    a2r [mkVS 13 0 2] 15 = Some 13 /\ touches [mkVS 13 0 2] 13 = true /\
+    ref_var_overlaps_var g 13 1 = Ok true /\ alt_var_overlaps_var g 15 1 = Ok false /\ alt_var_overlaps_var g 14 2 = Ok true.
+Proof. exact alt_single_base_insertion_point_refuted. Qed.
+
 Print Assumptions C05_apply_variants_is_splice.
 Print Assumptions C05_alt_length.
 Print Assumptions C05_from_var_stats.
@@ -153,3 +177,5 @@ Print Assumptions C05_nearest_after.
 Print Assumptions C05_range_lift_shrink.
 Print Assumptions C05_range_lift_strict.
 Print Assumptions C05_var_stats_match_source.
+Print Assumptions C05_alt_var_overlap_characterised.
+Print Assumptions C05_alt_single_base_insertion_point_refuted.
